@@ -217,32 +217,52 @@ func ruleOverlapAlign(w *World, r *Report) {
 			ok, why := selectIs(f, s, a, b, true)
 			return ok, true, why
 		}
-		// helper form: H(field k of id1, field k of id2)
-		if hc, isCall := s.(*ssa.Call); isCall && calleeOf(hc) != nil && w.InModule(calleeOf(hc)) && len(hc.Call.Args) == 2 {
+		// helper form: the value is (a result of) a private helper that receives field k of both IDs
+		var hc *ssa.Call
+		ri := 0
+		switch x := s.(type) {
+		case *ssa.Call:
+			hc = x
+		case *ssa.Extract:
+			hc, _ = x.Tuple.(*ssa.Call)
+			ri = x.Index
+		}
+		if hc != nil && calleeOf(hc) != nil && w.InModule(calleeOf(hc)) && calleeOf(hc).Blocks != nil {
 			h := calleeOf(hc)
-			ok0 := splitField(hc.Call.Args[0], f.Params[0], k) && splitField(hc.Call.Args[1], f.Params[1], k)
-			ok1 := splitField(hc.Call.Args[0], f.Params[1], k) && splitField(hc.Call.Args[1], f.Params[0], k)
-			if (ok0 || ok1) && len(h.Params) == 2 {
-				var pa, pb ssa.Value
-				instrs(h, func(in ssa.Instruction) {
-					ex, ok := in.(*ssa.Extract)
-					if !ok || ex.Index != 0 {
-						return
+			ia, ib := -1, -1
+			for i, arg := range hc.Call.Args {
+				if splitField(arg, f.Params[0], k) || parsedField(arg, f.Params[0], k) {
+					ia = i
+				}
+				if splitField(arg, f.Params[1], k) || parsedField(arg, f.Params[1], k) {
+					ib = i
+				}
+			}
+			if ia >= 0 && ib >= 0 && ia < len(h.Params) && ib < len(h.Params) {
+				valOf := func(p *ssa.Parameter) ssa.Value {
+					if isIntType(p.Type()) {
+						return p
 					}
-					c, ok := ex.Tuple.(*ssa.Call)
-					if !ok || !(calleeIs(c, "strconv", "Atoi") || calleeIs(c, "strconv", "ParseInt")) {
-						return
-					}
-					if resolve(c.Call.Args[0]) == ssa.Value(h.Params[0]) {
-						pa = ex
-					}
-					if resolve(c.Call.Args[0]) == ssa.Value(h.Params[1]) {
-						pb = ex
-					}
-				})
+					var out ssa.Value
+					instrs(h, func(in ssa.Instruction) {
+						ex, ok := in.(*ssa.Extract)
+						if !ok || ex.Index != 0 || out != nil {
+							return
+						}
+						c, ok := ex.Tuple.(*ssa.Call)
+						if ok && (calleeIs(c, "strconv", "Atoi") || calleeIs(c, "strconv", "ParseInt")) && resolve(c.Call.Args[0]) == ssa.Value(p) {
+							out = ex
+						}
+					})
+					return out
+				}
+				pa, pb := valOf(h.Params[ia]), valOf(h.Params[ib])
 				if pa != nil && pb != nil {
 					for _, ret := range returnsOf(h) {
-						if ok, why := selectIs(h, ret.Results[0], pa, pb, true); !ok {
+						if ri >= len(ret.Results) {
+							continue
+						}
+						if ok, why := selectIs(h, ret.Results[ri], pa, pb, true); !ok {
 							return false, true, "helper " + w.FuncName(h) + ": " + why
 						}
 					}
